@@ -56,7 +56,7 @@ def consume_behaviour(depth=2):
 def waiter_ops(beh):
     add = st.tuples(st.just('add'), wname, st.sampled_from([-2, -1, 1, 1, 2, 2, 3])).map(list)
     reserve = st.tuples(st.just('reserve'), wreq).map(list)
-    release = st.tuples(st.just('release'), st.integers(0, 4)).map(list)
+    release = st.tuples(st.just('release'), st.integers(0, 4), st.sampled_from([None, None, 'part'])).map(list)
     # the 4th element: the caller changes its own dictionary right after registering (the manager must keep a copy)
     # 5th element: the very same registration call made twice (same request, same callback object)
     register = st.tuples(st.just('register'), wreq, beh, st.sampled_from([False, False, True]),
@@ -99,7 +99,7 @@ def overcommit_waiter_cases(consume_only=True):
     cut = st.tuples(st.just('add'), st.sampled_from(['a', 'b']), st.sampled_from([-1, -2, -3])).map(list)
     small = st.sampled_from([{'a': 1}, {'b': 1}, {'a': 2}, {'a': 1, 'b': 1}, {'b': 1, 'a': 1}, {'a': 1, 'zzz': 0}])
     register = st.tuples(st.just('register'), small, beh, st.just(False), st.just(False)).map(list)
-    release = st.tuples(st.just('release'), st.integers(0, 4)).map(list)
+    release = st.tuples(st.just('release'), st.integers(0, 4), st.sampled_from([None, 'part'])).map(list)
     advance = st.tuples(st.just('advance'), st.sampled_from([0, 1])).map(list)
     grow = st.tuples(st.just('add'), st.sampled_from(['a', 'b']), st.sampled_from([1, 2])).map(list)
     tail = st.lists(st.one_of(release, release, release, advance, advance, register, cut, grow, reserve), min_size=4,
